@@ -1334,7 +1334,7 @@ class Corr:
         return self * y
 
     def __rtruediv__(self, y):
-        return (self / y) ** (-1)
+        return (self ** (-1)) * y
 
     @property
     def real(self):
